@@ -37,6 +37,14 @@ Theorem C11_alternates : forall cfg hn mt rmin rmax es,
 Proof. exact alternates. Qed.
 Print Assumptions C11_alternates.
 
+(* what is on the wire is what was stamped: in ANY run every written request (OWire tx id) was given
+   exactly that transaction id by tx_id.next() (OStamp tx id) - immediately, or when its slow write
+   began - so C11_txid / C11_system_encode speak about the wire *)
+Theorem C11_wire_is_stamped : forall cfg hn mt rmin rmax es tx id,
+  In (OWire tx id) (snd (run cfg (init hn mt rmin rmax) es)) -> In (OStamp tx id) (snd (run cfg (init hn mt rmin rmax) es)).
+Proof. exact wire_is_stamped. Qed.
+Print Assumptions C11_wire_is_stamped.
+
 (* requests are transmitted in submission order: the ids on the wire are a subsequence (order
    preserved) of the ids in the order of the Submit events *)
 Theorem C11_fifo : forall cfg mt hn rmin rmax es,
